@@ -422,3 +422,58 @@ def shared_restores(ctx, f):
                                    'every instance restored this way' % (
                                        norm_src(n), d[0])))
     return out
+
+
+# -- no operation depends on the leftovers of an earlier calculation ------------------
+HISTORY_FREE_OPS = ('calculate', '__call__', 'compile', 'to_dict', 'finish',
+                    'complete', 'assemble', 'from_dict')
+
+
+def rule_history(ctx, prop, rule, ops=HISTORY_FREE_OPS):
+    """The dispatcher keeps the solution of its last run (`dsp.solution`).  An
+    operation whose outcome may depend only on the model and on what it is
+    given must not read it (ExcelModel.write, which is documented to default to
+    the last solution, is the one reader)."""
+    rr = RuleResult(prop, rule, 'WHO',
+                    'calculation, compilation and export never read the '
+                    'results of an earlier calculation', floor=4)
+    p = ctx.project
+    cls = p.cls(EXCEL, MODEL)
+    for op in ops:
+        m = cls.methods.get(op)
+        if m is None:
+            continue
+        rr.instances += 1
+        bad = None
+        closure = dict(self_closure(ctx, cls, m))
+        # module-level helpers of the same module the closure calls
+        for g in list(closure.values()):
+            for e in ctx.cg.out(g):
+                if not e.is_ext and e.kind == 'call' and e.precision == 'exact' \
+                        and e.dst.module is m.module and e.dst.cls is None:
+                    closure.setdefault(e.dst.fq, e.dst)
+        for fq, g in sorted(closure.items()):
+            nodes = list(own_nodes(g))
+            for h in list(g.nested.values()) + list(g.lambdas):
+                nodes += list(ast.walk(h.node))
+            for n in nodes:
+                if isinstance(n, ast.Attribute) and n.attr == 'solution' and \
+                        isinstance(n.ctx, ast.Load):
+                    bad = bad or (g, n)
+        if bad is None:
+            rr.ok('%s.%s (with %d functions it reaches) never reads a '
+                  'dispatcher\'s stored solution' % (MODEL, op, len(closure)),
+                  '%s:%d' % (m.module.rel, m.lineno))
+        else:
+            g, n = bad
+            rr.fail(key_of(m, 'reads the solution of an earlier calculation'),
+                    '%s.%s reads `%s` (in %s, line %d): the values left by '
+                    'whatever calculation ran last - overrides included - '
+                    'flow into an operation that must depend only on the '
+                    'model and its own arguments' % (
+                        MODEL, op, norm_src(n), g.qualname, n.lineno),
+                    file=g.module.rel, function=g.qualname, line=n.lineno)
+    if rr.instances < 4:
+        raise AnalysisError('history rule: only %d of the model operations '
+                            'found' % rr.instances)
+    return rr
